@@ -56,6 +56,7 @@ class Gen:
         self.complete_macros: list[dict] = []  # {"name", "slots"}
         self.in_fill = 0
         self.in_translate = 0
+        self.cur_file = None          # multi-file sets: name of the file
 
     # -- expressions -------------------------------------------------------------
     def value_for(self, role: str) -> dict:
@@ -185,12 +186,22 @@ class Gen:
                 "define_slot": None, "fill_slot": None, "translate": None,
                 "i18n_name": None, "children": []}
 
-    def use_macro_element(self, depth: int) -> dict:
+    def use_macro_element(self, depth: int, other_file: bool = False) -> dict:
         """<x metal:use-macro="template.macros['m']"> with fill-slots."""
         ch = self.ch
         el = self.new_el()
-        macro = ch.pick(self.complete_macros)
+        pool = self.complete_macros
+        if other_file:
+            pool = [m for m in pool if m.get("file") != self.cur_file] or pool
+        macro = ch.pick(pool)
         el["use_macro"] = macro["name"]
+        if macro.get("file") != self.cur_file:
+            # a macro of another file: reached through load:
+            self.nvar += 1
+            el["use_file"] = macro["file"]
+            el["use_var"] = "lib%d" % self.nvar
+            el["define"].append(["", el["use_var"],
+                                 {"k": "load", "file": macro["file"]}])
         if ch.coin(0.3):
             self.nvar += 1
             el["define"].append(["", "v%d" % self.nvar, self.expr("define")])
@@ -230,7 +241,8 @@ class Gen:
                 depth < o["max_depth"] and ch.coin(o["macros"]):
             self.nmacro += 1
             el["define_macro"] = "m%d" % self.nmacro
-            self.macro_stack.append({"name": el["define_macro"], "slots": []})
+            self.macro_stack.append({"name": el["define_macro"], "slots": [],
+                                     "file": self.cur_file})
             is_macro = True
         elif o["macros"] and self.macro_stack and not self.in_fill and \
                 not self.in_translate and \
@@ -351,6 +363,40 @@ class Gen:
             self.complete_macros.append(self.macro_stack.pop())
         return el
 
+    def template_set(self, nlibs: int) -> dict:
+        """Several files: libraries of macros, and a main template that
+        uses them through load: (libraries may use earlier libraries)."""
+        files = {}
+        per_file = max(8, self.o["max_sites"] // (nlibs + 1))
+        for i in range(nlibs):
+            self.cur_file = "lib%d.pt" % i
+            self.o["max_sites"] = self.nsite + per_file
+            tree = self.template()["tree"]
+            if i and self.complete_macros and self.ch.coin(0.6):
+                # a library that itself uses an earlier library
+                self.macro_stack.append({"name": "m%d" % (self.nmacro + 1),
+                                         "slots": [], "file": self.cur_file})
+                self.nmacro += 1
+                wrap = self.new_el()
+                wrap["define_macro"] = self.macro_stack[-1]["name"]
+                wrap["children"] = [self.use_macro_element(2, True),
+                                    self.text()]
+                wrap["order"] = ["define_macro"]
+                self.complete_macros.append(self.macro_stack.pop())
+                tree["children"].append(wrap)
+            files[self.cur_file] = tree
+        self.cur_file = "main.pt"
+        self.o["max_sites"] = self.nsite + per_file
+        main = self.template()["tree"]
+        if self.complete_macros:
+            for _ in range(1 + self.ch.choose(2)):
+                main["children"].insert(
+                    self.ch.choose(len(main["children"]) + 1),
+                    self.use_macro_element(1, True))
+        files["main.pt"] = main
+        return {"files": files, "tree": files["main.pt"],
+                "sites": self.sites, "roles": self.roles}
+
     def template(self) -> dict:
         ch = self.ch
         root = self.new_el()
@@ -403,6 +449,8 @@ class Ser:
             self.occ[idx]["probe"] = e["id"]
         elif k == "lit":
             self.w(e["src"])
+        elif k == "load":
+            self.w("load: " + e["file"])
         elif k == "pyform":
             pre, post = PYFORMS[e["form"]].split("%s")
             self.w(pre)
@@ -506,7 +554,8 @@ class Ser:
             elif s == "use_macro":
                 self.w(self.sp() + 'metal:use-macro="')
                 start = self.pos
-                text = "template.macros['%s']" % n[s]
+                text = "%s.macros['%s']" % (n.get("use_var") or "template",
+                                            n[s])
                 self.w(text)
                 self.occ.append({"start": start, "end": self.pos,
                                  "kind": "use_macro", "e": "use",
@@ -541,9 +590,12 @@ class Ser:
         return src
 
 
-def serialise(tree: dict, pretty: bool = False) -> tuple[str, list]:
+def serialise(tree: dict, pretty: bool = False,
+              fname: str | None = None) -> tuple[str, list]:
     s = Ser(pretty)
     src = s.source(tree)
+    for o in s.occ:
+        o["file"] = fname
     return src, s.occ
 
 
